@@ -119,6 +119,7 @@ func LoadEngine(repo string, overlay map[string][]byte, libDir string) (*Engine,
 		return nil, err
 	}
 	e.cs = cs
+	e.expandSweepAll()
 	e.initExterns()
 	e.scanRegexGlobals()
 	return e, nil
@@ -597,4 +598,35 @@ func (e *Engine) funcValueContract(v ssa.Value) *FuncContract {
 		return e.cs.Funcs[x.Pkg.Pkg.Path()+"::(var)"+x.Name()]
 	}
 	return nil
+}
+
+// expandSweepAll gives every contract-less function of a package with a `sweepall` directive a
+// bare sweep contract (synthetic, in a stable order).
+func (e *Engine) expandSweepAll() {
+	for _, sa := range e.cs.SweepAll {
+		var keys []string
+		for key, fn := range e.funcs {
+			if !strings.HasPrefix(key, sa.Pkg+"::") || fn == nil || fn.Blocks == nil {
+				continue
+			}
+			name := strings.TrimPrefix(key, sa.Pkg+"::")
+			if name == "init" || strings.HasPrefix(name, "init#") || strings.HasPrefix(name, "Test") || strings.HasPrefix(name, "Benchmark") {
+				continue
+			}
+			if _, has := e.cs.Funcs[key]; has {
+				continue
+			}
+			keys = append(keys, key)
+		}
+		sort.Strings(keys)
+		for _, key := range keys {
+			ct := &FuncContract{Pkg: sa.Pkg, Name: strings.TrimPrefix(key, sa.Pkg+"::"), Modes: map[string]bool{}, Checks: map[string]bool{}, File: sa.File, Line: sa.Line,
+				Attrs: map[string]string{}, Props: sa.Props, Opaque: true, Sweep: true}
+			for _, k := range sa.Kinds {
+				ct.Checks[k] = true
+			}
+			e.cs.Funcs[key] = ct
+			e.cs.Order = append(e.cs.Order, key)
+		}
+	}
 }
